@@ -349,6 +349,10 @@ def models_agree(ctx, models, at, nd, a0):
     flat_ok = nd == 2 and ((init[0] == 'call' and init[1] == 'seqrepeat') or init[0] in ('list',))
     if not (init[0] == 'call' and init[1] == 'zeros') and init[0] != 'map' and not flat_ok:
         return False, f'unrecognised container initialiser {T.brief(init, 120)}'
+    if nd == 3 and init[0] == 'call' and init[1] == 'zeros' and not (init[2] and init[2][0][0] == 'tuple' and len(init[2][0][1]) == 2):
+        return False, f'a 3-D group needs a two-level container, found {T.brief(init, 100)} (models[i][j] = ... would subscript a number)'
+    if nd == 2 and init[0] == 'call' and init[1] == 'zeros' and init[2] and init[2][0][0] == 'tuple' and len(init[2][0][1]) != 1:
+        pass            # a nested placeholder row is simply replaced by the model: harmless
     if len(stores) != 1:
         return False, f'{len(stores)} stores into self.models'
     k, v, g = stores[0]
